@@ -327,7 +327,7 @@ class map_if(x12_node):
         for ord1 in sorted(self.pos_map):
             for child in self.pos_map[ord1]:
                 if child.id.upper() == x12path.loop_list[0]:
-                    if len(x12path.loop_list) == 1:
+                    if len(x12path.loop_list) == 1 and x12path.seg_id is None:
                         return child
                     else:
                         del x12path.loop_list[0]
